@@ -14,8 +14,9 @@ PROPS = {
              "(vector, raw pointer through the property tree, '%n:m', '<m', '>m', random positions), type 1/2, adjust_p 0/1/2, approx_schur, simplec_dia; inner solvers are user-defined "
              "dense long-double solvers that also record the matrices/right-hand sides they are handed (second prop: make_solver<as_preconditioner<ilu0|damped_jacobi>, gmres> at tol 1e-14). "
              "CPR/CPR-DRS: block-structured multi-phase style systems, b=2..4, 1..10 cells on 9 graph families, structurally incomplete blocks, 0..2 inactive block rows (active_rows), "
-             "scalar input with block_size b and b x b static_matrix input side by side, known linear inner preconditioners. Deflated solver: SPD M-matrices n<=40, 1..5 deflation vectors "
-             "(subdomain indicators, perturbed, integer weighted), 7 Krylov solvers, 3 preconditioners. "
+             "scalar input with block_size b and b x b static_matrix input side by side, known linear inner preconditioners. Deflated solver: SPD M-matrices n<=40 and, in two thirds of the cases, non-symmetric "
+             "convection-diffusion style systems M + skew convection (+ diagonal lift; symmetric part SPD, so A and Z^T A Z are nonsingular and non-symmetric), 1..5 deflation vectors "
+             "(subdomain indicators, perturbed, integer weighted), 7 Krylov solvers, 3 preconditioners; |Z^T(b-Ax)| asserted after project() and after apply(). "
              "non-trivial: both u and p parts non-empty with non-zero coupling in both directions (schur); >=2 cells with an off-diagonal block (cpr); n > nvec and A not diagonal (deflated). "
              "distinct = distinct decoded choice sequences (64-bit hash), united over shards.",
         assumptions=[
